@@ -26,6 +26,8 @@ import (
 	"testing"
 	"time"
 
+	"github.com/EdgeCast/vflow/ipfix"
+	netflow9 "github.com/EdgeCast/vflow/netflow/v9"
 	"pgregory.net/rapid"
 	"verif/harness/wire"
 )
@@ -66,7 +68,7 @@ func splitmix(x uint64) uint64 {
 // scaleElems: elements of the live information model at their natural sizes (fixed-size unsigned and address
 // types, ids below 128 so that both tables have them); scaleAddrElems are the IPv4 ones.
 var (
-	scaleElemsOnce                sync.Once
+	scaleElemsOnce             sync.Once
 	scaleElems, scaleAddrElems []wire.Field
 )
 
@@ -392,4 +394,169 @@ func init() {
 			return err
 		})
 	}
+}
+
+// ---------------------------------------------------------------- soak: one element used millions of times
+
+// A collector decodes the same few elements (octetDeltaCount, protocolIdentifier, the addresses) billions of times.
+// The information model is a table that is only read (C20 compares it entry for entry with the registry), but "read"
+// is the implementation's business: whatever bookkeeping a lookup does must not change what the 2^24-th lookup of an
+// element returns. The soak decodes one element's records until it has been used Uses times and requires the first,
+// every 64th and the last message — and a probe of other elements — to decode exactly like the first one.
+type soakCase struct {
+	Proto string `json:"proto"`
+	Elem  uint16 `json:"soak_element"`
+	Uses  int    `json:"uses"`
+}
+
+const soakRule = " | soak stage: one fixed-size element of the live model (drawn per run) is decoded in maximum-size messages until it has been looked up 2^24 + 2^12 times in this process (thorough: also 2^25 + 2^12); oracle = the first, every 64th and the last message decode to the octets sent under the element's registry type, and so does a probe record of ten other elements before and after"
+
+func runSoak(c *soakCase) (v verdict, sig string, err error) {
+	startWatchdog()
+	scaleElements()
+	var f *wire.Field
+	for i := range scaleElems {
+		if scaleElems[i].ID == c.Elem {
+			f = &scaleElems[i]
+		}
+	}
+	if f == nil || c.Uses < 1 || c.Uses > 1<<27 || (c.Proto != "ipfix" && c.Proto != "nf9") {
+		return v, "", fmt.Errorf("bad case: soak")
+	}
+	cache := newFlowCache(c.Proto)
+	addr := wire.ExactIP([]byte{10, 20, 30, 40})
+	caseJSON := mustJSON(c)
+	watched := func(b []byte, full bool) (res flowResult, perr error) {
+		var ms runtime.MemStats
+		runtime.ReadMemStats(&ms)
+		inflight.Store(&inflightT{prop: "C20", data: caseJSON, start: time.Now(), heap0: ms.HeapAlloc, cpu0: processCPU()})
+		defer inflight.Store(nil)
+		if full {
+			return cache.decodeFlow(addr, b)
+		}
+		defer func() {
+			if r := recover(); r != nil {
+				perr = fmt.Errorf("decoder panicked: %v", r)
+			}
+		}()
+		if c.Proto == "ipfix" {
+			m, e := ipfix.NewDecoder(addr, b).Decode(cache.ix)
+			res.Nil, res.Err = m == nil, e
+		} else {
+			m, e := netflow9.NewDecoder(addr, b).Decode(cache.n9)
+			res.Nil, res.Err = m == nil, e
+		}
+		return
+	}
+	tp := wire.Template{ID: 300, Fields: []wire.Field{*f}}
+	probeTp := wire.Template{ID: 301}
+	for i := 0; len(probeTp.Fields) < 10 && i < len(scaleElems); i++ {
+		if scaleElems[i].ID != c.Elem {
+			probeTp.Fields = append(probeTp.Fields, scaleElems[i])
+		}
+	}
+	ann := wire.Msg{Proto: c.Proto, Seq: 1, Time: 1700000000, Domain: 1, Count: 2, Sets: []wire.Set{{Kind: "tpl", Tpls: []wire.Template{tp, probeTp}}}}
+	if res, perr := watched(ann.Bytes(), true); perr != nil || res.Nil || res.Err != nil {
+		return v, "soak-announce", fmt.Errorf("announcement refused: %v %v", res.Err, perr)
+	}
+	nrec := (65535 - 64) / int(f.Len)
+	if nrec > 60000 {
+		nrec = 60000
+	}
+	var recs []wire.Record
+	var want []wire.ExpRecord
+	for r := 0; r < nrec; r++ {
+		val := make([]byte, f.Len)
+		h := splitmix(uint64(r) + 77)
+		for j := range val {
+			val[j] = byte(h >> (8 * uint(j%8)))
+		}
+		recs = append(recs, wire.Record{Vals: []wire.Hex{val}})
+		want = append(want, wire.ExpectRecord(&tp, &recs[r]))
+	}
+	dm := wire.Msg{Proto: c.Proto, Seq: 2, Time: 1700000001, Domain: 1, Count: uint16(nrec), Sets: []wire.Set{{Kind: "data", Tpl: &tp, Recs: recs}}}
+	data := dm.Bytes()
+	var prec wire.Record
+	for i, pf := range probeTp.Fields {
+		val := make([]byte, pf.Len)
+		for j := range val {
+			val[j] = byte(0x80 + 16*i + j)
+		}
+		prec.Vals = append(prec.Vals, val)
+	}
+	pm := wire.Msg{Proto: c.Proto, Seq: 3, Time: 1700000001, Domain: 1, Count: 1, Sets: []wire.Set{{Kind: "data", Tpl: &probeTp, Recs: []wire.Record{prec}}}}
+	probe := func(when string) error {
+		res, perr := watched(pm.Bytes(), true)
+		if perr != nil || res.Nil || res.Err != nil {
+			return fmt.Errorf("probe %s: not decoded: %v %v", when, res.Err, perr)
+		}
+		if d := wire.CompareRecords(res.Recs, []wire.ExpRecord{wire.ExpectRecord(&probeTp, &prec)}); d != "" {
+			return fmt.Errorf("probe of ten other elements %s: %s", when, d)
+		}
+		return nil
+	}
+	if err = probe("before the soak"); err != nil {
+		return v, "soak-probe", err
+	}
+	msgs := (c.Uses + nrec - 1) / nrec
+	for i := 0; i <= msgs; i++ {
+		full := i == 0 || i%64 == 0 || i >= msgs-1
+		res, perr := watched(data, full)
+		if perr != nil || res.Nil || res.Err != nil {
+			return v, "soak-decode", fmt.Errorf("element %d (%s, %d octets): message %d of the soak (records %d..) is not decoded: %v %v", f.ID, wire.TypeName(f.Type), f.Len, i, i*nrec, res.Err, perr)
+		}
+		if full {
+			if d := wire.CompareRecords(res.Recs, want); d != "" {
+				return v, "soak-decode", fmt.Errorf("element %d (%s, %d octets) after %d uses in this process (message %d of the soak): %s", f.ID, wire.TypeName(f.Type), f.Len, i*nrec, i, d)
+			}
+		}
+	}
+	if err = probe("after the soak"); err != nil {
+		return v, "soak-probe", err
+	}
+	v.NT = true
+	v.label(true, "soak-"+c.Proto)
+	v.label(c.Uses > 1<<24, "element-used>2^24-times")
+	v.label(c.Uses > 1<<25, "element-used>2^25-times")
+	return v, "", nil
+}
+
+func TestC20Soak(t *testing.T) {
+	installEnterprise()
+	scaleElements()
+	col := getCollector("C20", "")
+	if !strings.Contains(col.Rule, "soak stage") {
+		col.Rule += soakRule
+	}
+	seed := e2eSeed()
+	uses := []int{1<<24 + 1<<12}
+	if os.Getenv("VERIF_TIER") == "thorough" {
+		uses = []int{1<<24 + 1<<12, 1<<25 + 1<<12, 1<<24 + 1<<12, 1<<24 + 1<<12}
+	}
+	if scaleCases(1) == 0 {
+		t.Skip("VERIF_SCALE_CASES=0")
+	}
+	for i, u := range uses {
+		h := splitmix(uint64(seed)*31 + uint64(i))
+		c := soakCase{Proto: []string{"ipfix", "nf9"}[h%2], Elem: scaleElems[int((h>>8)%uint64(len(scaleElems)))].ID, Uses: u}
+		v, sig, err := runSoak(&c)
+		col.report(t, mustJSON(c), v, sig, err)
+		col.addExtra("soak_cases", 1)
+		if err != nil {
+			return
+		}
+		runtime.GC()
+	}
+}
+
+func init() {
+	registerReplayExtra("C20", "soak_element", func(raw json.RawMessage) error {
+		installEnterprise()
+		var c soakCase
+		if err := json.Unmarshal(raw, &c); err != nil {
+			return err
+		}
+		_, _, err := runSoak(&c)
+		return err
+	})
 }
